@@ -24,6 +24,15 @@ def run(tier, replay=None):
         for i in range(1, k + 1):
             cases.append({"k": k, "small": [], "tie": [i], "curv": ["pos"] * k, "bad": []})
             cases.append({"k": k, "small": [j for j in range(1, k + 1) if j != i], "tie": [i], "curv": ["pos"] * k, "bad": []})
+    # badly scaled abscissa (x ~ 1e-9, slope ~ 1e9): the default Hessian step cannot see the curvature of the slope, so the routine must
+    # take its fallback step-size branch and decide the snapping with the curvature found there (same decision inputs, same relation)
+    scaled = []
+    for c in cases:
+        if all(x == "pos" for x in c["curv"]) and c["k"] <= 2 and not c["bad"]:
+            d = dict(c)
+            d["scale"] = 1e-9
+            scaled.append(d)
+    cases += scaled
     if False:
         rng = random.Random(evidence.seed())
         keep = [c for c in cases if all(x == "pos" for x in c["curv"])]
@@ -50,14 +59,14 @@ def run(tier, replay=None):
         if "raised" in o:
             r.violation("raised:%s" % o["raised"].split(":")[0], "convert_params raised %s on case %s" % (o["raised"], c), {"case": c})
             continue
-        judged.append({"id": len(judged), "k": c["k"], "small": c["small"], "tie": c["tie"], "curv": c["curv"], "bad": c["bad"],
+        judged.append({"id": len(judged), "k": c["k"], "small": c["small"], "tie": c["tie"] if c.get("scale", 1.0) == 1.0 else c["tie"], "curv": c["curv"], "bad": c["bad"],
                        "len": o["len"], "zeros": o["zeros"], "formula": o["formula"], "nllok": o["nllok"] and o["params_are_ml_or_zero"]})
         meta.append((c, o))
     jres, failed = tlc.judge("SnapJudge", judged)
     r.add_tlc(jres, "snap_judge")
     for i, cl in sorted(failed.items()):
         c, o = meta[i]
-        key = "snap:%s:k%d:small%s:curv%s" % (",".join(cl), c["k"], c["small"], "".join(x[0] for x in c["curv"]))
+        key = "snap:%s:k%d:small%s:curv%s%s" % (",".join(cl), c["k"], c["small"], "".join(x[0] for x in c["curv"]), ":scaled" if c.get("scale", 1.0) != 1.0 else "")
         if cl != ["nonpositive_curvature_gives_nan"]:
             key += ":bad%s" % c["bad"]
         r.violation(key,
